@@ -71,8 +71,9 @@ def dblBasicImp (o : BOps F) (cv : CurveB F) (p : Pt F) : Pt F :=
   let ry := o.add t1 p.y
   ⟨rx, ry, p.z, .basic⟩
 
+/-- eb_dbl_basic: the identity, and the point of order two (x = 0, vertical tangent), double to the identity -/
 def dblBasic (o : BOps F) (cv : CurveB F) (p : Pt F) : Pt F :=
-  if isInfty o p then infty o else dblBasicImp o cv p
+  if isInfty o p || o.isZero p.x then infty o else dblBasicImp o cv p
 
 /-- eb_dbl_projc_imp -/
 def dblProjcImp (o : BOps F) (cv : CurveB F) (p : Pt F) : Pt F :=
@@ -212,7 +213,7 @@ def subProjc (o : BOps F) (cv : CurveB F) (same : Bool) (p q : Pt F) : Pt F :=
   if same then infty o else addProjc o cv p (negProjc o q)
 
 /-- eb_hlv: p affine (BASIC) or in λ-representation; the result is in λ-representation -/
-def hlv (o : BOps F) (cv : CurveB F) (p : Pt F) : Pt F :=
+def hlvImp (o : BOps F) (cv : CurveB F) (p : Pt F) : Pt F :=
   let t := addA o cv p.x
   let l := o.slv t
   let t := if p.coord = .basic then o.add (o.mul l p.x) p.y
@@ -220,12 +221,16 @@ def hlv (o : BOps F) (cv : CurveB F) (p : Pt F) : Pt F :=
   if !(o.trc t) then ⟨o.srt (o.add t p.x), l, o.one, .halve⟩
   else ⟨o.srt t, o.add l o.one, o.one, .halve⟩
 
-/-- eb_norm (r distinct from p is observable for the λ-representation: r.z is not written — the model takes the old r.z) -/
-def norm (o : BOps F) (rzOld : F) (p : Pt F) : Pt F :=
+/-- eb_hlv: the identity halves to the identity -/
+def hlv (o : BOps F) (cv : CurveB F) (p : Pt F) : Pt F :=
+  if isInfty o p then infty o else hlvImp o cv p
+
+/-- eb_norm -/
+def norm (o : BOps F) (p : Pt F) : Pt F :=
   if isInfty o p then infty o
   else match p.coord with
     | .basic => p
-    | .halve => ⟨p.x, o.mul (o.add p.x p.y) p.x, rzOld, .basic⟩
+    | .halve => ⟨p.x, o.mul (o.add p.x p.y) p.x, o.one, .basic⟩
     | .projc =>
       let rz := o.inv p.z
       let rx := o.mul p.x rz
